@@ -311,7 +311,8 @@ def check (params lines : List String) : CaseResult := Id.run do
   let mut r : CaseResult := {}
   -- ---- lock-step
   -- shape `bnd` (boundary listener flows) is outside the completion model's programs: judged by the predicate only
-  let pinned := (scen != "free" || !manyMonitors) && shape != "bnd"
+  -- (so is shape `subfork`: tokens inside an embedded sub-process are counted by the sub-process's own wait group)
+  let pinned := (scen != "free" || !manyMonitors) && shape != "bnd" && shape != "subfork"
   let mut explainedByLateSub := false
   if pinned then
     let ls := replay P scen 0 toks
